@@ -228,3 +228,69 @@ ELLIPSIS_MOD = ["#...", "*...", "_...", "?...", "doc=...", "#*...", "a #... b"]
 # forms on which only totality (annotation or ValueError) is asserted
 TOTALITY_ONLY = ["....", "...a", "a...", "=", "==", "a=", "=a", "a==b", "(", "a(", ")", "{", "{n}", "{n", "a b=", "\x00", "#=", "*=a", "a=*b", "'", '"', "a'b", "\\", "a.b", "a[0]", "1e3", "0x10", "١", "²", "a-", "+", "-", "*-1", "é=3", "3=a", "_=_", "?=?", "#doc", "0", "00", "+3", "1_000"]
 NONSTRINGS = [("int", 3), ("NoneType", None), ("float", 3.5), ("tuple", ("a",)), ("list", ["a"]), ("bytes", b"a")]
+
+
+# ------------------------------------------------- relatives (C14's history dimension)
+#
+# A "relative" of a spec is a different dim string that shares tokens / characters with
+# it, so that any memory keyed by less than the whole string (a token, a whitespace-
+# normalised or modifier-normalised form, ...) confuses the two.  Written from the list of
+# documented illegal forms; the reference status of every relative is re-derived with
+# `classify` (nothing is assumed about what the rewriting produced).
+
+
+def all_multi(axes) -> bool:
+    """Does the shape admit rank 0?  (every axis is a multi-axis specifier)"""
+    return all(rdims.is_multi(a) for a in axes)
+
+
+def _uniq(cands, spec, want):
+    out, seen = [], {spec, spec.strip()}
+    for r in cands:
+        if r in seen or r.strip() in seen:
+            continue
+        seen.add(r)
+        if classify(r)[0] == want:
+            out.append(r)
+    return out
+
+
+def illegal_relatives(spec: str):
+    """Documented illegal forms made of the tokens of the (legal) `spec`: its axes
+    between two '...' (two multi-axis specifiers), the spec twice (ditto, when it has a
+    multi-axis specifier), its axes separated with commas, a trailing '#', its first
+    modifier repeated."""
+    toks = spec.split()
+    cands = [f"... {spec.strip()} ...".replace("  ", " "), f"{spec.strip()} {spec.strip()}"]
+    cands.append(",".join(toks) if len(toks) > 1 else spec.strip() + ",")
+    if toks:
+        cands.append(spec.strip() + "#")
+        first = toks[0]
+        rep = (first[0] + first) if first[0] in MODS else ("##" + first)
+        cands.append(" ".join([rep] + toks[1:]))
+    return _uniq(cands, spec, "error")
+
+
+def legal_relatives(spec: str, cap: int = 8):
+    """Legal forms made of the tokens of the (illegal) `spec`: every token alone, every
+    token with its modifiers deduplicated and sorted, the whole spec so rewritten, every
+    token with one of its leading modifier characters dropped, commas read as spaces, a trailing '#' moved to the front, every proper prefix of the token
+    sequence."""
+    toks = spec.split()
+    cands = list(toks)
+    cands += [canonical_token(t) for t in toks]
+    cands.append(" ".join(canonical_token(t) for t in toks))
+    for t in toks:  # one leading modifier character dropped
+        i = 0
+        while i < len(t) and t[i] in MODS:
+            cands.append(t[:i] + t[i + 1 :])
+            i += 1
+    if "," in spec:
+        cands.append(spec.replace(",", " ").strip())
+        cands += spec.replace(",", " ").split()
+    cands += ["#" + t[:-1] for t in toks if t.endswith("#") and len(t) > 1]
+    cands.append(" ".join(("#" + t[:-1]) if (t.endswith("#") and len(t) > 1) else t for t in toks))
+    for k in range(1, len(toks)):
+        cands.append(" ".join(toks[:k]))
+        cands.append(" ".join(toks[k:]))
+    return _uniq(cands, spec, "ok")[:cap]
